@@ -31,7 +31,7 @@ pub fn gen_cfg(rng: &mut Rng) -> Cfg {
         addr: rng.addr(),
         msg_types: rng.bytes(nmt),
         vendor_ids: (0..nv)
-            .map(|_| ((rng.below(2)) as u8, (rng.next() >> 16) as u32, (rng.next() >> 20) as u16))
+            .map(|_| ((rng.below(2)) as u8, rng.c32(), rng.c16()))
             .collect(),
     }
 }
